@@ -221,7 +221,10 @@ fn zero_rhs_case(st: &mut Stats, rng: &mut Rng) {
         match out {
             Outcome::Ok(Ok(it)) => {
                 if !fl::all_finite(&x.vec) { st.violation(&format!("C09:{}:zero-rhs:ok-nonfinite", sv.name()), format!("x={:?}; {}", x.vec, desc())); continue; }
-                let drift = crate::mon::c08::drift_units(sv) * U * (it as f64 + 1.0) * frob(&d) * norm2(&x0).max(norm2(&x.vec));
+                // (drift at the scale of the LARGEST ITERATE, obtained by budget replay as in C08: BiCGSTAB's iterates can grow
+                //  far beyond the guess on weakly dominant systems before they come down - thorough seed 5)
+                let mmax = crate::mon::c08::max_iterate_norm(sv, &a, &bv, &x0, it, tol).max(norm2(&x0)).max(norm2(&x.vec));
+                let drift = crate::mon::c08::drift_units(sv) * U * (it as f64 + 1.0) * frob(&d) * mmax;
                 let bound = 4.0 * frob(&inv) * (tol + drift);
                 st.max(&format!("zero_rhs_norm_over_bound:{}", sv.name()), norm2(&x.vec) / bound);
                 if !(norm2(&x.vec) <= bound) { st.violation(&format!("C09:{}:zero-rhs:disagrees-with-direct", sv.name()), format!("A x = 0 has the solution 0, but Ok({}) left ||x|| = {:e} > ||A^-1||_F (tol + drift) = {:e} (true absolute residual {:e}); x={:?}; {}", it, norm2(&x.vec), bound, crate::mon::c08::true_resid(&d, &x.vec, &vec![0.0; n]), x.vec, desc())); }
